@@ -441,6 +441,30 @@ def scenario_checking(kind):
     Returns (Project, avail, declared_in, history)."""
     from . import e3
     sources = {"in1.txt": "1\n", "in2.txt": "2\n"}
+    if kind == "dynamic":
+        # X amends data/dyn.txt (a match of a static tree). Before the second build that file is deleted and X's
+        # declared input changes: X has a stored hash and a MISSING dynamic input, so it gets a ValidateDynamicJob
+        # (dispatched like a hash check, without looking at resources), the validation fails (inputs changed), the
+        # dynamic information is dropped and X has to run again under the full guard: after the plan's release (the plan
+        # runs again and holds), one at a time with Y.
+        sources.update({"data/": "", "data/dyn.txt": "d\n"})
+
+        def dplan(extra):
+            return [{"op": "static", "paths": ["in1.txt", "in2.txt", "data/"]}, {"op": "hold"},
+                    {"op": "step", "label": "X", "inp": ["in1.txt"], "out": ["x.txt"], "resources": {"gpu": 1}},
+                    {"op": "step", "label": "Y", "inp": ["in2.txt"], "out": ["y.txt"], "resources": {"gpu": 1}},
+                    {"op": "gate", "name": "mid"}, {"op": "release"}] + extra
+        prog = {"scripts": {"plan.py": dplan([])},
+                "commands": {"X": [{"op": "if_exists", "path": "data/dyn.txt",
+                                    "then": [{"op": "amend", "inp": ["data/dyn.txt"]}]}, {"op": "auto"}],
+                             "Y": [{"op": "auto"}]}}
+        edits = [{"op": "write", "path": "in1.txt", "content": "1 changed\n"},
+                 {"op": "write", "path": "in2.txt", "content": "2 changed\n"},
+                 {"op": "delete", "path": "data/dyn.txt"},
+                 {"op": "script", "path": "plan.py", "actions": dplan([{"op": "print", "text": "again"}])}]
+        return (e3.Project(sources=sources, program=prog), {"gpu": 1},
+                {"X": "./plan.py", "Y": "./plan.py"}, [{"edits": edits}])
+
     def plan(extra):
         acts = [{"op": "static", "paths": ["in1.txt", "in2.txt"]}]
         if kind == "hold":
